@@ -144,6 +144,16 @@ def strict_equal(a, b):
   except Exception:
     return False
 
+def _plain_str(value):
+  """
+  Returns the text of a str (or str subclass) value as an exact str, which is all that marshal
+  accepts. Note that str(value) alone is not enough: __str__ of a subclass may itself return an
+  instance of a subclass.
+  """
+  # pylint: disable=unidiomatic-typecheck
+  text = str(value)
+  return text if type(text) == str else str.__str__(text)
+
 def equal_encoding(a, b):
   # Compare NaNs as equal.
   if isinstance(a, float) and isinstance(b, float):
@@ -173,7 +183,7 @@ def encode_object(value):
     # Other instances of these types must be derived; cast these to the primitive type to ensure
     # they are marshallable.
     elif isinstance(value, str):
-      return str(value)
+      return _plain_str(value)
     elif isinstance(value, float):
       return float(value)
     elif isinstance(value, bool):
@@ -206,7 +216,8 @@ def encode_object(value):
     elif isinstance(value, dict):
       if not all(isinstance(key, str) for key in value):
         raise UnmarshallableError("Dict with non-string keys")
-      return ['O', {key: encode_object(val) for key, val in value.items()}]
+      # Keys too must be exact strings to be marshallable (e.g. members of a StrEnum are not).
+      return ['O', {_plain_str(key): encode_object(val) for key, val in value.items()}]
     elif value == _pending_sentinel:
       return ['P']
     elif value == _censored_sentinel:
